@@ -4,25 +4,111 @@ OBLIGATIONS = []
 
 VS_REAL = ["version_edit.c", "util/buffer.c", "util/slice.c", "util/rbt.c", "dbformat.c", "util/comparator.c"]
 VS_KIT = ["vp_nondet.c", "vp_mem.c", "vp_alloc_c17.c"]
-VS_FP = []
+VS_FP = ["by_smallest_key.function_pointer_call.1/ldb_ikc_compare",
+         "ldb_ikc_compare.function_pointer_call.1/slice_compare",
+         "rb_node_clear.function_pointer_call.1/file_set_destruct,file_entry_destruct"]
 
 
-def builder_obl(b0, b1, b2, na, nd, tier="quick"):
+def builder_obl(b0, b1, b2, na, nd, al, dl, tier="quick"):
     nb = b0 + b1 + b2
-    return Obl("a.builder-B%d.%d.%d-A%d-D%d" % (b0, b1, b2, na, nd), "C14/builder.c",
+    return Obl("a.builder-B%d.%d.%d-A%d@%s-D%d@%s" % (b0, b1, b2, na, al, nd, dl), "C14/builder.c",
                real=VS_REAL, include_real=["version_set.c", "util/vector.c"], kit=VS_KIT,
-               defs={"VP_B0": b0, "VP_B1": b1, "VP_B2": b2, "VP_NA": na, "VP_ND": nd, "VP_SLAB": 16, "VP_VEC_CAP": 8},
+               defs={"VP_B0": b0, "VP_B1": b1, "VP_B2": b2, "VP_NA": na, "VP_ND": nd, "VP_AL": int(al[::-1] or 0), "VP_DL": int(dl[::-1] or 0),
+                     "VP_SLAB": 16, "VP_VEC_CAP": 8},
                unwind=max(12, nb + na + 2), restrict_fp=VS_FP,
+               unwindset=dict([(l, max(na, nd) + 2) for l in (
+                   "rb_node_clear", "rb_node_min.0", "rb_node_max.0", "rb_node_successor.0", "rb_node_successor.1",
+                   "ldb_rb_tree_put.0", "ldb_rb_tree_get.0", "ldb_rb_tree_del.0", "rb_tree_insert_fixup.0",
+                   "rb_tree_remove_fixup.0")]),
                timeout=900, tier=tier,
                functions=["builder_init", "builder_apply", "builder_save_to", "builder_maybe_add_file", "builder_clear",
                           "by_smallest_key", "file_set_compare", "ldb_ikc_compare", "ldb_edit_add_file",
                           "ldb_edit_remove_file", "ldb_rb_tree_put", "ldb_rb_set64_has", "ldb_vector_push"],
                desc="builder output per level == (base - deleted) + added, strictly sorted by (smallest, number); "
                     "disjoint additions keep levels >= 1 non-overlapping; allowed_seeks and reference counts",
-               bounds="base %d/%d/%d files on levels 0/1/2, %d added files (symbolic level 0..2), %d deleted (level, number) pairs; "
-                      "9-byte internal keys, all numbers/sizes/keys symbolic" % (b0, b1, b2, na, nd))
+               bounds="base %d/%d/%d files on levels 0/1/2, %d added files on levels [%s], %d deleted (level, number) pairs on levels [%s]; "
+                      "9-byte internal keys, all numbers/sizes/keys symbolic" % (b0, b1, b2, na, al, nd, dl))
 
 
-OBLIGATIONS.append(builder_obl(1, 2, 0, 1, 1))
+BUILDER_CONFIGS = [
+    # (b0, b1, b2, na, nd, add levels, delete levels, tier)
+    (0, 1, 0, 1, 1, "1", "1", "quick"),
+    (1, 2, 0, 1, 1, "1", "1", "quick"),
+    (1, 1, 1, 1, 1, "0", "0", "quick"),
+    (0, 2, 1, 2, 1, "11", "1", "quick"),
+    (1, 2, 1, 2, 2, "12", "12", "quick"),
+    (2, 2, 0, 1, 2, "0", "01", "quick"),
+    (1, 2, 2, 2, 2, "22", "21", "thorough"),
+    (2, 2, 2, 2, 2, "11", "11", "thorough"),
+]
+for c in BUILDER_CONFIGS:
+    OBLIGATIONS.append(builder_obl(*c[:7], tier=c[7]))
 
-META = {}
+EDIT_REPLACE = ["ldb_buffer_varint32:vp_buffer_varint32", "ldb_buffer_varint64:vp_buffer_varint64",
+                "ldb_buffer_export:vp_buffer_export"]
+
+
+def replay_obl(b0, b1, b2, rot, tier="quick"):
+    nb = b0 + b1 + b2
+    reccap = 30 + 14 + nb * 46
+    return Obl("e.replay-B%d.%d.%d-R%d" % (b0, b1, b2, rot), "C14/replay.c",
+               real=VS_REAL, include_real=["version_set.c", "util/vector.c"], kit=VS_KIT + ["vp_buffer_c17.c"],
+               defs={"VP_B0": b0, "VP_B1": b1, "VP_B2": b2, "VP_ROT": rot, "VP_RECCAP": reccap,
+                     "VP_SLAB": reccap * 3 // 2 + 8, "VP_VEC_CAP": 8},
+               replace_calls=EDIT_REPLACE, restrict_fp=VS_FP,
+               flags=["--max-field-sensitivity-array-size", str(reccap * 3 // 2 + 9)],
+               unwind=28,
+               unwindset=dict([(l, nb + 2) for l in (
+                   "rb_node_clear", "rb_node_min.0", "rb_node_max.0", "rb_node_successor.0", "rb_node_successor.1",
+                   "ldb_rb_tree_put.0", "ldb_rb_tree_get.0", "ldb_rb_tree_del.0", "rb_tree_insert_fixup.0",
+                   "rb_tree_remove_fixup.0")] +
+                   [("ldb_writer_add_record.0", reccap + 1), ("ldb_edit_import.0", nb + 4)]),
+               timeout=900, tier=tier,
+               functions=["ldb_versions_write_snapshot", "ldb_edit_export", "ldb_edit_import", "builder_apply",
+                          "builder_save_to", "ldb_edit_add_file", "ldb_edit_set_compact_pointer"],
+               desc="write_snapshot -> export -> import -> builder on an empty version set reproduces every level's file list "
+                    "(numbers, sizes, bounds, order) and the compaction pointer",
+               bounds="%d/%d/%d files on levels 0/1/2, 9-byte symbolic keys, compaction pointer on level 1; "
+                      "concrete representative numbers/sizes (varint lengths rotate with R=%d)" % (b0, b1, b2, rot))
+
+
+OBLIGATIONS.append(replay_obl(1, 2, 1, 0))
+OBLIGATIONS.append(replay_obl(2, 1, 0, 3))
+OBLIGATIONS.append(replay_obl(0, 2, 2, 6))
+OBLIGATIONS.append(replay_obl(2, 2, 2, 1, tier="thorough"))
+
+META = {
+    "level": "model_checking",
+    "level_text": "Bounded model checking (CBMC) of lcdb's own version_set.c builder (builder_apply, builder_save_to, "
+                  "reached by including the real file), version_edit.c and the snapshot writer: for every symbolic "
+                  "base layout, edit and key bytes inside the stated sizes the produced version is compared with an "
+                  "independently written set/ordering reference; counterexamples are replayed natively.",
+    "level_note": "Only sub-items a (builder merge) and e (MANIFEST replay) of the design are built; compaction input "
+                  "selection (b), output bounds (c) and flush placement (d) are not. Trusted: CBMC's C semantics, the "
+                  "kit models, the harness' reference internal-key order. Base versions are arbitrary layouts "
+                  "satisfying the builder's own output invariant (sorted by smallest key and number, levels >= 1 "
+                  "disjoint), not only layouts reached by real histories.",
+    "bounds": [
+        "builder: base version of <= 2 files per level on levels 0..2, edits adding <= 2 files and deleting <= 2 "
+        "(level, number) pairs; levels of the edit entries concrete per query, deleted numbers symbolic (hit or miss); "
+        "all file numbers, sizes and 9-byte internal keys (1 user byte + 8 byte tag) symbolic",
+        "replay: <= 2 files per level on 3 levels, one compaction pointer, symbolic 9-byte keys, concrete "
+        "representative file numbers / sizes of varint lengths 1..10",
+    ],
+    "outside": [
+        "more than 2 files per level, more than 3 populated levels, user keys longer than one byte, custom comparators",
+        "sequences of several edits applied to one builder (recovery applies many); counters (log number, next file, "
+        "last sequence) in the replay",
+        "compaction input selection, output file bounds, flush placement, close/reopen through the real file system",
+    ],
+    "models": [
+        "vp_mem.c byte-loop mem*", "vp_nondet.c symbolic input sources",
+        "vp_alloc_c17.c fixed-slab ldb_realloc, typed pointer slabs for vectors (vp_vector_inc.h includes the real util/vector.c)",
+        "vp_buffer_c17.c buffer-append wrappers without pointer differences (replay only)",
+        "function pointers restricted to ldb_ikc_compare / slice_compare / file_set_destruct, file_entry_destruct (checked by CBMC)",
+        "ldb_writer_add_record stub capturing the snapshot record (replay)",
+    ],
+    "assumptions": [
+        "file numbers are unique; a table's smallest key is not above its largest",
+    ],
+}
